@@ -3,6 +3,7 @@
 package main
 
 import (
+	"github.com/tdakkota/docker-logql/internal/logql/lexer"
 	"github.com/tdakkota/docker-logql/internal/logql/logqlengine/jsonexpr"
 	"github.com/tdakkota/docker-logql/internal/logql/logqlengine/logqlpattern"
 )
@@ -48,6 +49,27 @@ func init() {
 				}
 			}
 			outs[i] = map[string]any{"parts": parts}
+		}
+		return map[string]any{"outputs": outs}, nil
+	}
+}
+
+// tokenizemany: lexer.Tokenize on each input: token types and texts, or the error
+func init() {
+	handlers["tokenizemany"] = func(req request) (map[string]any, error) {
+		ins := get[[]string](req, "inputs")
+		outs := make([]map[string]any, len(ins))
+		for i, s := range ins {
+			toks, err := lexer.Tokenize(unb64(s), lexer.TokenizeOptions{})
+			if err != nil {
+				outs[i] = map[string]any{"err": err.Error()}
+				continue
+			}
+			ti := make([]map[string]any, 0, len(toks))
+			for _, t := range toks {
+				ti = append(ti, map[string]any{"type": t.Type.String(), "text": s64(t.Text)})
+			}
+			outs[i] = map[string]any{"tokens": ti}
 		}
 		return map[string]any{"outputs": outs}, nil
 	}
